@@ -468,9 +468,15 @@ class Interp:
         kwargs = dict(kwargs or {})
         env = self.bind(module, fn, list(args), kwargs)
         pobj = self.__dict__.setdefault("param_objs", {})
-        for v in env.values():
+        first = "param_items" not in self.__dict__
+        pit = self.__dict__.setdefault("param_items", {})
+        for pname, v in env.items():
             if isinstance(v, (Arr, Tup)):
                 pobj[id(v)] = v  # objects that belong to a caller (for aliasing through np.asarray)
+            if first and isinstance(v, Tup) and v.kind in ("tuple", "list"):
+                for k, it in enumerate(v.items):
+                    if isinstance(it, Expr):
+                        pit[id(it)] = (it, pname, k)  # an element of a sequence the caller handed in: a number, or a 0-d / one-element array
         if closure:
             for k, v in closure.items():
                 env.setdefault(k, v)
@@ -608,6 +614,8 @@ class Interp:
             return self.fterm(node.args[0], env)
         if isinstance(node, ast.Subscript) and isinstance(node.value, ast.Name) and node.value.id in env and isinstance(env[node.value.id], Arr):
             return ("leaf", env[node.value.id])  # an element (or selection of elements) of that array
+        if isinstance(node, ast.Call) and dotted_name(node.func) and not node.keywords and all(not isinstance(a, ast.Starred) for a in node.args):
+            return ("call", dotted_name(node.func)) + tuple(self.fterm(a, env) for a in node.args)
         return ("source", ast.unparse(node))
 
     @staticmethod
@@ -667,6 +675,8 @@ class Interp:
             return repr(a[1])[:40]
         if a[0] in ("const", "name", "source"):
             return str(a[1])
+        if a[0] == "call":
+            return "%s(%s)" % (a[1], ", ".join(Interp.fterm_str(x) for x in a[2:]))
         if a[0] == "Neg":
             return "-(%s)" % Interp.fterm_str(a[1])
         sym = {"Add": "+", "Sub": "-", "Mult": "*", "Div": "/", "Pow": "**", "FloorDiv": "//", "Mod": "%"}.get(a[0], a[0])
@@ -684,7 +694,7 @@ class Interp:
             self.eval(s.value, env)
         elif isinstance(s, ast.Assign):
             fts = self._fterms_of_assign(s, env)
-            if TRACK_CANCEL and isinstance(s.value, ast.BinOp):
+            if TRACK_CANCEL and any(isinstance(n, ast.BinOp) for n in ast.walk(s.value)):
                 try:
                     self.event("arith", s, self.fterm(s.value, env))  # the operation tree as floating point evaluates it
                 except AnalysisError:
@@ -704,6 +714,10 @@ class Interp:
                 self.assign(s.target, self.eval(s.value, env), env)
         elif isinstance(s, ast.AugAssign):
             cur = self.eval(_load(s.target), env)
+            ent = getattr(self, "param_items", {}).get(id(cur))
+            if ent is not None and ent[0] is cur and isinstance(s.target, ast.Name):
+                self.event("param-mutation", s, "in-place %s on %s, which is element %d of the caller's %s: a coordinate given as a 0-d or one-element array is modified in the caller" % (
+                    type(s.op).__name__, s.target.id, ent[2], ent[1]))
             v = self.binop(s.op, cur, self.eval(s.value, env), s)
             if isinstance(cur, Arr) and isinstance(s.target, ast.Name):
                 # numpy's augmented assignment works in place: every alias of the array sees it, the caller's array included
@@ -911,6 +925,8 @@ class Interp:
             self.exec_range_loop(s, al[0], env, index_target=al[1], elements=al[2])
             return
         it = self.eval(s.iter, env)
+        if isinstance(it, Tup) and it.kind == "iterator":
+            it = self.np.consume(it)
         if isinstance(it, RangeV):
             self.exec_range_loop(s, it, env)
             return
@@ -1713,7 +1729,11 @@ class Interp:
                 parts.append(v.value)
             elif isinstance(v, ast.FormattedValue):
                 try:
-                    parts.append(self.eval(v.value, env))
+                    val = self.eval(v.value, env)
+                    parts.append(val)
+                    if v.format_spec is not None:
+                        spec = "".join(x.value for x in v.format_spec.values if isinstance(x, ast.Constant) and isinstance(x.value, str))
+                        self.event("eager-format", v, (val, spec))  # formatted here and now, with this spec
                 except AnalysisError:
                     parts.append(Unknown("f-string field"))
         if all(type(p) is str and not p.startswith("<") for p in parts):
@@ -1910,6 +1930,19 @@ class Interp:
                 kind = ("nonmean",) if r.meta.get("nonmean_of") is base else ("other",)
                 r = self._as_view(r, base, lambda nb, idx=idx, node=node, env=env: self.np.load(self, nb, idx, node, env), kind)
             return r
+        if isinstance(base, Opaque) and base.name == "rank-map":
+            key = self.eval(node.slice, env)
+            U, src = base.attrs["of"], base.attrs.get("distinct_of")
+            if isinstance(key, Expr) and isinstance(src, Arr) and isinstance(src.val, Expr) and isinstance(U, Arr) and U.meta.get("sorted_unique"):
+                ge = getattr(self, "_genlist_source", None)
+                if ge is not None and ge[0] is src and key.eq(ge[1]):
+                    # the position of x[j] among the sorted distinct values of x: entry j of np.unique's inverse map
+                    ua = U.val.top_atoms()
+                    tagsym = next(iter(ua)).args[0].top_atoms() if len(ua) == 1 and next(iter(ua)).kind == "fn" else None
+                    tag = next(iter(tagsym)).name if tagsym and len(tagsym) == 1 else "unique"
+                    self._rank_hits = getattr(self, "_rank_hits", 0) + 1
+                    return alg.fn("elem", alg.sym("inverse:" + tag), integer=True)
+            return Unknown("position of %r in a list of distinct values" % (key,))
         if isinstance(base, Opaque):
             key = self.eval(node.slice, env)
             if base.attrs.get("fault"):
@@ -2025,6 +2058,33 @@ class Interp:
 
         if isinstance(it, Tup) and it.kind == "dict":
             it = Tup([k for k, _ in it.items], "list")
+        if isinstance(it, Tup) and it.kind == "iterator":
+            it = self.np.consume(it)
+        if isinstance(it, Opaque) and it.name == "list-of-array" and isinstance(it.attrs.get("of"), Arr) and not g.ifs and len(gens) == 1:
+            # the entries of an array as a Python list: one generic entry per position
+            src = it.attrs["of"]
+            if src.shape is not None and isinstance(src.val, Expr):
+                n = ONE
+                for d in src.shape:
+                    n = n * d
+                self._loop_ids += 1
+                iv = alg._atom("sym", "j#%d" % self._loop_ids, (), pos=False, real=True, integer=True)
+                e2 = dict(env)
+                self.assign(g.target, src.val, e2)
+                saved = getattr(self, "_genlist_source", None)
+                self._genlist_source = (src, src.val)
+                hits0 = getattr(self, "_rank_hits", 0)
+                try:
+                    elem = leaf(e2)
+                finally:
+                    self._genlist_source = saved
+                gl = GenList(elem, iv, RangeV(ZERO, n, ONE))
+                if getattr(self, "_rank_hits", 0) > hits0 and isinstance(elem, Expr):
+                    ua = [a for a in elem.atoms() if a.kind == "fn" and a.name == "elem"]
+                    for cand in self.__dict__.setdefault("unique_registry", []):
+                        if cand[1] is src or (isinstance(cand[1].val, Expr) and cand[1].val.eq(src.val)):
+                            gl.inverse_of = (cand[0], cand[1])
+                return [gl]
         if isinstance(it, Tup):
             out = []
             for x in it.items:
@@ -2075,6 +2135,14 @@ class Interp:
         return self.make_set(items)
 
     def ev_DictComp(self, node, env):
+        if len(node.generators) == 1 and not node.generators[0].ifs:
+            g = node.generators[0]
+            it = self.eval(g.iter, env)
+            if (isinstance(it, Opaque) and it.name == "enumerate-of-array" and isinstance(g.target, ast.Tuple) and len(g.target.elts) == 2
+                    and all(isinstance(e, ast.Name) for e in g.target.elts) and isinstance(node.key, ast.Name) and isinstance(node.value, ast.Name)
+                    and node.key.id == g.target.elts[1].id and node.value.id == g.target.elts[0].id):
+                # {value: position for position, value in enumerate(values)}: where each value stands in that list
+                return Opaque("rank-map", {"of": it.attrs["of"], "distinct_of": it.attrs.get("distinct_of")})
         items = self._comp_items(node.generators, env, lambda e2: (self.eval(node.key, e2), self.eval(node.value, e2)))
         if items is None or any(isinstance(x, GenList) for x in items):
             return Unknown("dict comprehension")
@@ -2192,6 +2260,15 @@ class Interp:
             return alg.const(ca.re // cb.re)
         if cb is not None and cb.re == 2 and self.facts.is_even(a):
             return a / b
+        if a.is_zero():
+            return ZERO
+        # an exact quotient of integers: (k * n) // n is k
+        try:
+            q = (a / b).simp()
+            if q.is_poly() and all(c.im == 0 and c.re.denominator == 1 and all(isinstance(p, int) and p > 0 and at.integer for at, p in m) for m, c in q.expand().n.items()) and self.np._scalar_dtype(a) == "int" and self.np._scalar_dtype(b) == "int":
+                return q.expand()
+        except Exception:
+            pass
         return alg.fn("floordiv", a, b, integer=True)
 
     # ---- calls
@@ -2311,7 +2388,7 @@ BUILTINS = {
     "len", "int", "float", "max", "min", "range", "tuple", "list", "str", "isinstance", "getattr", "abs",
     "enumerate", "zip", "sum", "bool", "dict", "set", "sorted", "print", "any", "all", "ValueError",
     "RuntimeError", "FileNotFoundError", "TypeError", "Exception", "hasattr", "round", "open", "repr", "type",
-    "complex", "reversed", "map", "id", "object", "next", "iter", "slice", "KeyError", "IndexError", "ImportError",
+    "complex", "reversed", "map", "filter", "id", "object", "next", "iter", "slice", "KeyError", "IndexError", "ImportError",
 }
 
 EXT_MODULES = {"functools", "numpy", "np", "math", "scipy", "numba", "pyfftw", "os", "logging", "warnings", "hashlib", "pathlib",
